@@ -1068,6 +1068,8 @@ package http2
 // ---------------------------------------------------------------------------
 
 //@ guarded Conn.sendLck: Conn.connWindow, Conn.streamWindow, pendingBody.window
+//@ # a body waiting for window belongs to a request (set where the entry is created in writeRequest)
+//@ type pendingBody invariant owner: self.ctx != nil
 
 //@ func (*pendingBody).hasMore
 //@ props C07
@@ -1156,3 +1158,33 @@ package http2
 //@ # (that the frame holds exactly body[i:i+step] needs the pooled frame buffer and the caller's body to be separate arrays)
 //@ assert@call:(*FrameHeader).WriteTo#2 frame: step >= 1 && step <= lim && i + step <= len(body) && len(data.b) == step &&
 //@ |   (data.endStream <==> (end && i + step == len(body))) && !data.hasPadding
+
+//@ func (*Conn).flushData
+//@ props C07
+//@ requires args: c != nil && c.bw != nil
+//@ opt noframe=true
+//@ opt body=skip
+
+//@ func (*Conn).refillPending
+//@ props C07
+//@ requires args: c != nil && pb != nil && pb.stream != nil
+//@ opt noovf=true
+//@ opt noframe=true
+//@ modifies pb.buf, pb.body, pb.read, pb.drained, anybytes()
+//@ ensures chunk: len(pb.body) <= 16384 || sameslice(pb.body, old(pb.body))
+//@ ensures progress: r0 == nil ==> len(pb.body) > 0 || pb.drained
+//@ ensures stream: pb.stream == old(pb.stream) && pb.ctx == old(pb.ctx)
+
+//@ func (*Conn).sendPending
+//@ props C07 C02
+//@ requires args: c != nil && c.bw != nil
+//@ opt noframe=true
+//@ modifies c.connWindow, family(pendingBody), anybytes()
+//@ loop 0: invariant inv: c != nil && c.bw != nil
+//@ # What is handed to the frame writer has been paid for out of both windows, under the lock: after the
+//@ # deduction both are still >= 0 unless nothing is being sent (RFC 7540 6.9.1)
+//@ assert@call:(*Conn).flushData#1 paid: len(body) == n && n >= 0 && (n == 0 || (pb.window >= 0 && c.connWindow >= 0))
+//@ # END_STREAM goes with the last octets and only with them
+//@ assert@call:(*Conn).flushData#1 last: end <==> !(len(pb.body) > 0 || (pb.stream != nil && !pb.drained))
+//@ # nothing is written for a blocked body
+//@ assert@call:(*Conn).flushData#1 nonempty: n > 0 || end
